@@ -90,6 +90,11 @@ CHECKS = {
     category="model_checking", design_ref="4 C19",
     text="TLC explores every accept/reject sequence of length 10 (thorough 12) of the line-search machine and checks that the weights returned are the last accepted point, that the step never doubles after a rejection and that the iterate moves only on accepted steps. PublicInference.estimate is run on a fresh object for seeded public datasets (support missing private cells and vice versa), measurement sets (identity/total/prefix queries, projections in any order incl. reordered full-domain), noise scales and totals given / estimated / estimated-below-zero / unrelated; the result must hold one finite non-negative weight per public record summing to the total over the unchanged records, and its squared-error fit recomputed with plain numpy must not exceed that of uniform weights with the same total; each run's H5 stream must be a behaviour of the spec with branch = independently re-evaluated comparison and exact step-size exponents.",
     note="Fresh object per scenario (repeated calls on one object are outside the property)."),
+ "C18": dict(
+    technique="TLA+ spec of the restart/damping controller of approximate estimation (spec/approx/LocalMD.tla: NoCrash, RestoredOnRestart, restart hazard) model-checked by TLC over every loss-trajectory pattern; hook-H4 traces validated by spec/approx/LocalTrace.tla; validity, feasibility and exactness checked on real runs",
+    category="model_checking", design_ref="4 C18",
+    text="TLC explores the controller for the three oracles x iteration counts {1,2,51,52,60} x every loss-up/down pattern, checking that every field an action reads exists for that oracle (NoCrash), that restarts restore potentials and messages, and exhibits the unbounded restart chain as a design hazard. LocalInference.estimate is run for convex/approx/pairwise on overlapping, cyclic, nested three-level (large totals) and disjoint measurement sets with 1,5,60,200 iterations and totals given/estimated: no exception; every measured clique's table finite, non-negative, summing to the total; fit no worse than uniform; convex-oracle tables agreeing within the enforced feasibility tolerance (edge-averaged L1 < 1, recomputed with numpy); on disjoint families (half of them after an earlier call with other answers on the same object) the loss must equal FactoredInference's within 1e-3 of the initial gap. Each run's H4 stream must be a behaviour of the controller spec.",
+    note="pairwise-convex needs cvxopt (absent). Known finding F17 (unchecked final step, iters=1) listed."),
 }
 
 NOT_YET = "check not built yet (work in progress, see DESIGN.md section 8 build order)"
